@@ -9,7 +9,7 @@ TLC : the statement's invariants (ordered exactly-once delivery per direction, c
 bind: every behaviour replayed against a real grpc.Server with main.newGrpcProxy's options,
       real grpc_testing.TestService backends behind counting listeners and a real client
       (harness/main/c16_test.go)"""
-import json, os, random
+import json, os, random, threading, time
 from lib import vf
 
 CFG = """SPECIFICATION %(spec)s
@@ -21,22 +21,28 @@ CONSTANTS
   MaxCalls = %(nc)d
   MaxSets = %(ns)d
   MaxTicks = %(nt)d
+  MaxDowns = %(nd)d
+  MaxBursts = %(nb)d
+  BurstUniverse <- MCBurstCalls
+  BurstSizes <- MCBurstSizes
   CleanupCloses = %(cc)s
+  PoolRace = "%(race)s"
 VIEW View
-INVARIANTS TypeOK OrderedExactlyOnce Transparent NotFoundContactsNobody OneConnPerBackend ReusedWhileInTable CleanedAfterTick ClosedWhenDropped
+INVARIANTS TypeOK OrderedExactlyOnce Transparent ForwardedWhenReachable NotFoundContactsNobody OneConnPerBackend ReusedWhileInTable CleanedAfterTick ClosedWhenDropped BurstTransparent BurstLeavesOneConn
 PROPERTIES DialOnlyWithoutEntry
 CHECK_DEADLOCK FALSE
 """
 
 
 def cfg(**k):
-    d = dict(spec="GenSpec", slots="MCSlots2", tables="MCTablesFixed", calls="MCCallsQuick", nc=1, ns=0, nt=0, cc="TRUE")
+    d = dict(spec="GenSpec", slots="MCSlots2", tables="MCTablesFixed", calls="MCCallsQuick", nc=1, ns=0, nt=0, cc="TRUE", nd=0, nb=0, race="recheck")
     d.update(k)
     return CFG % d
 
 
-ACTIONS = ["SetTableAny", "CallStartAny", "Route", "NotFound", "Dial", "Reuse", "MsgToBackend", "EofToBackend",
-           "MsgToCaller", "Finish", "Return", "CleanupTick", "Drop"]
+ACTIONS = ["SetTableAny", "CallStartAny", "Route", "NotFound", "Dial", "Reuse", "Unavailable", "Reconnect", "StillBackingOff",
+           "MsgToBackend", "EofToBackend", "MsgToCaller", "Finish", "Return", "CleanupTick", "Drop", "Outage",
+           "BurstStartAny", "BurstStep", "BurstEnd"]
 
 
 def read(path):
@@ -86,24 +92,53 @@ def run(ctx):
     sink_call = os.path.join(ctx.tmp, "c16.call")
     sink_hist = os.path.join(ctx.tmp, "c16.hist")
 
-    # 1. per-call universe: model check + generate
-    g1 = ctx.tlc("GrpcProxy_MC", cfg_text=cfg(calls=ctx.pick("MCCallsQuick", "MCCallsFull"), slots=ctx.pick("MCSlots2", "MCSlots3")),
-                 json_sink=sink_call, workers=8, timeout=ctx.pick(300, 1500), coverage=ctx.thorough)
-    ctx.log("per-call universe: %d states, %d distinct, %.0fs" % (g1.generated, g1.distinct, g1.wall))
-    if not ctx.need_tlc_ok(g1, "GrpcProxy per-call universe"):
-        return
-    ctx.cover("mc_call", states=g1.distinct, transitions=g1.generated)
+    # 1. TLC: four configurations of the one specification, side by side
+    #    (a) per-call universe  (b) histories: table changes, calls, clean-up ticks
+    #    (c) bursts of overlapping first calls to a backend the pool has no connection to yet
+    #    (d) outages: a backend in the table stops listening, calls arrive, it listens again, it leaves
+    sink_burst = os.path.join(ctx.tmp, "c16.burst")
+    sink_out = os.path.join(ctx.tmp, "c16.outage")
+    jobs = [
+        ("per-call universe", dict(calls=ctx.pick("MCCallsQuick", "MCCallsFull"), slots=ctx.pick("MCSlots2", "MCSlots3")), sink_call, "mc_call"),
+        ("histories", dict(calls=ctx.pick("MCCallsHistSmall", "MCCallsHist"), tables="MCTablesAll", nc=3, ns=2, nt=ctx.pick(1, 2)), sink_hist, "mc_hist"),
+        ("bursts", dict(calls="MCCallsHistSmall", tables="MCTablesAll", nc=ctx.pick(0, 1), ns=1, nt=1, nb=1), sink_burst, "mc_burst"),
+        ("outages", dict(calls="MCCallsOutage", tables="MCTablesAll", nc=ctx.pick(4, 5), ns=1, nt=1, nd=1), sink_out, "mc_outage"),
+    ]
+    results = {}
 
-    # 2. histories: table changes, calls, clean-up ticks
-    g2 = ctx.tlc("GrpcProxy_MC", cfg_text=cfg(calls=ctx.pick("MCCallsHistSmall", "MCCallsHist"), tables="MCTablesAll",
-                                              nc=3, ns=2, nt=ctx.pick(1, 2)),
-                 json_sink=sink_hist, workers=8, timeout=ctx.pick(300, 3000), coverage=ctx.thorough)
-    ctx.log("histories: %d states, %d distinct, depth %d, %.0fs" % (g2.generated, g2.distinct, g2.depth, g2.wall))
-    if not ctx.need_tlc_ok(g2, "GrpcProxy histories"):
-        return
-    ctx.cover("mc_hist", states=g2.distinct, transitions=g2.generated)
+    def tlc_job(name, kw, sink):
+        try:
+            results[name] = ctx.tlc("GrpcProxy_MC", cfg_text=cfg(**kw), json_sink=sink, workers=4, timeout=ctx.pick(300, 1500),
+                                    coverage=ctx.thorough)
+        except Exception as e:      # surfaces below as a missing result
+            results[name] = e
+    threads = []
+    for name, kw, sink, _ in jobs:
+        t = threading.Thread(target=tlc_job, args=(name, kw, sink))
+        t.start()
+        threads.append(t)
+        time.sleep(0.5)             # ctx.tlc numbers its scratch directories when it is entered
+    for t in threads:
+        t.join()
+    cov0 = set(ACTIONS)
+    for name, kw, sink, part in jobs:
+        r = results.get(name)
+        if r is None or isinstance(r, Exception):
+            ctx.inconclusive("GrpcProxy %s: TLC did not run: %r" % (name, r))
+            return
+        ctx.log("%s: %d states, %d distinct, depth %d, %.0fs" % (name, r.generated, r.distinct, r.depth, r.wall))
+        if not ctx.need_tlc_ok(r, "GrpcProxy " + name):
+            return
+        ctx.cover(part, states=r.distinct, transitions=r.generated)
+        cov0 &= set(r.coverage0)
     if ctx.thorough:
-        never = set(g1.coverage0) & set(g2.coverage0) & set(ACTIONS)
+        for race, inv in (("overwrite", "BurstLeavesOneConn"), ("close-replaced", "BurstTransparent")):
+            dv = ctx.tlc("GrpcProxy_MC", cfg_text=cfg(spec="Spec", calls="MCCallsHistSmall", tables="MCTablesAll", nc=0, nb=1, race=race),
+                         workers=4, timeout=300)
+            if dv.violated != inv:
+                ctx.inconclusive("model self-test: the deviation PoolRace=%s should violate %s, got %r %r" % (race, inv, dv.violated, dv.error))
+                return
+        never = cov0
         if never:
             ctx.inconclusive("actions never taken in any configuration: %s" % sorted(never))
             return
@@ -156,6 +191,44 @@ def run(ctx):
         return
     if not ctx.thorough:
         plain = plain[:1200]
+    # bursts: every distinct one (the interleaving inside the proxy cannot be steered: played several times)
+    def key(b):
+        return json.dumps(b["steps"], sort_keys=True)
+    bursts = sorted({key(b): b for b in read(sink_burst) if any(s["op"] == "burst" for s in b["steps"])}.values(), key=key)
+    rnd.shuffle(bursts)
+    burst_plain = [b for b in bursts if effective_ticks(b) == 0 and b["steps"][-1]["op"] == "burst"]
+    burst_tick = [b for b in bursts if effective_ticks(b) == 1 and b["steps"][-1]["op"] == "tick"
+                  and any(s["op"] == "burst" and s["be"] in b["steps"][-1]["closed"] for s in b["steps"])]
+    if not ctx.thorough:
+        burst_plain = burst_plain[:40]
+    for b in burst_plain:
+        b["repeat"] = ctx.pick(3, 5)
+    burst_tick = burst_tick[:ctx.pick(1, 3)]
+    # outages: the history that matters most first -- calls refused during the outage, recovery, the
+    # backend leaves the table, clean-up -- then other shapes
+    outs = sorted({key(b): b for b in read(sink_out) if any(s["op"] == "down" for s in b["steps"])}.values(), key=key)
+    rnd.shuffle(outs)
+    def out_score(b):
+        ops = [s["op"] for s in b["steps"]]
+        refused = sum(1 for s in b["steps"] if s["op"] == "call" and s.get("unav") == "yes")
+        rec = any(s["op"] == "call" and s.get("conn") == "reconnect" for s in b["steps"])
+        down_be = next(s["be"] for s in b["steps"] if s["op"] == "down")
+        closes = b["steps"][-1]["op"] == "tick" and down_be in b["steps"][-1].get("closed", [])
+        dialled = any(s["op"] == "call" and s.get("conn") == "dial" and s.get("be") == down_be for s in b["steps"][:ops.index("down")])
+        return (-(rec and closes and refused >= 2), -(rec and closes), -refused, -dialled)
+    outs.sort(key=out_score)
+    chosen_out, seen_sig = [], set()
+    for b in outs:
+        sig = tuple(s["op"] + (":" + s.get("unav", "") + s.get("conn", "") if s["op"] == "call" else "") for s in b["steps"])
+        if sig in seen_sig:
+            continue
+        seen_sig.add(sig)
+        chosen_out.append(b)
+        if len(chosen_out) >= ctx.pick(1, 5):
+            break
+    if not burst_plain or not burst_tick or not chosen_out or out_score(chosen_out[0])[0] != -1:
+        ctx.inconclusive("the generator produced no burst / burst+clean-up / outage+recovery+clean-up behaviour")
+        return
     for b in calls:
         b["mode"] = "shared"
     # binding self-test: corrupted expectations must be rejected by the harness
@@ -164,25 +237,26 @@ def run(ctx):
         ctx.inconclusive("no usable behaviour for the binding self-test")
         return
     selftests = [corrupt(base, how) for how in ("resp", "status", "backend", "conn")]
-    allb = calls + plain + chosen_ticks + selftests
+    allb = calls + plain + burst_plain + chosen_ticks + burst_tick + chosen_out + selftests
     for i, b in enumerate(allb):
         b["idx"] = i + 1
-    for b in chosen_ticks:
+    for b in chosen_ticks + burst_tick + chosen_out:
         ctx.log("  closing-tick behaviour: " + " ".join(
             s["op"] + (":" + (s.get("be") or "-") + "/" + s.get("conn", "") if s["op"] == "call" else
                        ":" + ",".join(s.get("closed", [])) if s["op"] == "tick" else
+                       ":" + s["be"] + ("x%d" % s["n"] if s["op"] == "burst" else "") if s["op"] in ("down", "up", "burst") else
                        ":" + ",".join(sorted(set(r["be"] for r in s["table"])))) for s in b["steps"]))
     cases = os.path.join(ctx.tmp, "c16.cases")
     vf.write_ndjson(cases, allb)
-    ctx.log("replaying %d per-call behaviours, %d histories, %d with a closing clean-up tick (of %d / %d / %d generated)"
-            % (len(calls), len(plain), len(chosen_ticks), len(calls), len(hists) - len(ticked), len(ticked)))
+    ctx.log("replaying %d per-call behaviours, %d histories, %d with a closing clean-up tick (of %d / %d / %d generated), %d bursts (+%d with clean-up), %d outages"
+            % (len(calls), len(plain), len(chosen_ticks), len(calls), len(hists) - len(ticked), len(ticked), len(burst_plain), len(burst_tick), len(chosen_out)))
 
     r = run_harness(ctx, cases, "C16 replay", timeout=ctx.pick(300, 800))
     if r is None:
         return
     s = r.summary
-    ctx.log("replayed %d behaviours: %d calls, %d messages, %d closing ticks, %d failed, %.0fs"
-            % (s["behaviours"], s["calls"], s["messages"], s["ticks"], s["fails"], r.wall))
+    ctx.log("replayed %d behaviours: %d calls, %d messages, %d closing ticks, %d bursts, %d outages, %d failed, %.0fs"
+            % (s["behaviours"], s["calls"], s["messages"], s["ticks"], s["bursts"], s["outages"], s["fails"], r.wall))
     ctx.cover(traces_validated_against_impl=s["behaviours"], evaluations=s["calls"], distinct_nontrivial=s["distinct_nontrivial"],
               samples=s.get("samples") or [], exhaustive=bool(ctx.thorough),
               rule="one behaviour per transition TLC examined that completes a call or a closing clean-up tick (shortest history to the source state + that step); per-call universe complete, histories complete in thorough and a seeded slice in quick; non-trivial = distinct behaviour with a routed call that moved >=2 messages")
